@@ -401,8 +401,11 @@ func TestLargeLayers(t *testing.T) {
 		sz := s.BoundingBox().Size()
 		h := sz.MaxComponent() / float64(cells)
 		layer := (int(sz.Y/h) + 2) * (int(sz.Z/h) + 2)
-		ts := render.ToTriangles(s, render.NewMarchingCubesUniform(cells))
-		desc := fmt.Sprintf("%s of size %v at %v, %d cells (layers of ~%d points)", kind, sz, c, cells, layer)
+		// the evaluations take a varying time in two thirds of the cases (the workers fall behind the renderer
+		// and its request queue runs full)
+		cost := rapid.SampledFrom([]int{2, 0, 2}).Draw(t, "evaluation-cost")
+		ts := render.ToTriangles(&lat.Perturb3{S: s, Mode: cost}, render.NewMarchingCubesUniform(cells))
+		desc := fmt.Sprintf("%s of size %v at %v, %d cells (layers of ~%d points), evaluation cost mode %d", kind, sz, c, cells, layer, cost)
 		fmt.Printf("C10-CASE large-layers %s\n", desc)
 		worst := 0.0
 		seen := map[v3.Vec]bool{}
@@ -425,7 +428,7 @@ func TestLargeLayers(t *testing.T) {
 		if len(ts) == 0 {
 			rec.Violation(t, "C10:large-layers:empty-mesh", "%s: no triangles", desc)
 		}
-		ts2 := render.ToTriangles(s, render.NewMarchingCubesUniform(cells))
+		ts2 := render.ToTriangles(&lat.Perturb3{S: s, Mode: cost}, render.NewMarchingCubesUniform(cells))
 		same := len(ts) == len(ts2)
 		for i := 0; same && i < len(ts); i++ {
 			same = *ts[i] == *ts2[i]
